@@ -3,6 +3,7 @@ package main
 // Calls: builtins, inlining, call-by-contract, library models, callbacks.
 
 import (
+	"regexp"
 	"fmt"
 	"go/token"
 	"go/types"
@@ -83,6 +84,22 @@ func (e *Engine) callFunction(st *State, fr *Frame, callee *ssa.Function, bindin
 		if ct != nil && !ct.Inline && !(len(st.frames) == 1 && false) {
 			res := e.callByContract(st, fr, callee, ct, args, bindings, resT, pos, ins)
 			setRes(res)
+			if pd := st.pendingDone; pd != nil {
+				st.pendingDone = nil
+				for _, c := range sortedKeys(pd) {
+					sym := pd[c]
+					if other := e.fork(st); other != nil {
+						other.assume(sym)
+						if other.ctxDone == nil {
+							other.ctxDone = map[string]bool{}
+						}
+						other.ctxDone[c] = true
+						other.trace = append(other.trace, "callee-saw-done")
+						e.run(other)
+					}
+					st.assume(not(sym))
+				}
+			}
 			return
 		}
 		// inline
@@ -520,9 +537,16 @@ func (e *Engine) callByContract(st *State, fr *Frame, callee *ssa.Function, ct *
 	st.bumpFrontier()
 	e.havocModifies(st, env, ct)
 	res := e.freshResult(st, "res_"+callee.Name(), callee.Signature.Results())
-	post := &Env{eng: e, st: st, pkg: env.pkg, vars: env.vars, oldSnap: snap, hasOld: true, where: "ensures of " + funcDisplayName(callee)}
+	post := &Env{eng: e, st: st, pkg: env.pkg, vars: env.vars, oldSnap: snap, hasOld: true, where: "ensures of " + funcDisplayName(callee), doneSym: map[string]string{}}
 	e.bindResults(post, callee, res)
 	for _, en := range post.expand(ct.Ensures) {
+		st.assume(en.term)
+	}
+	if len(post.doneSym) > 0 {
+		st.pendingDone = post.doneSym
+	}
+	for _, en := range post.expand(ct.AssumedEns) {
+		e.assumptions["assumed postcondition of "+funcDisplayName(callee)+" (not checked on its body): ["+en.name+"]"] = true
 		st.assume(en.term)
 	}
 	return res
@@ -569,7 +593,7 @@ func (e *Engine) havocModifies(st *State, env *Env, ct *Contract) {
 func (e *Engine) havocLocation(st *State, env *Env, m string) {
 	m = strings.TrimSpace(m)
 	if strings.HasPrefix(m, "heap:") {
-		n := m[5:]
+		n := resolveHeapName(m[5:])
 		if strings.HasPrefix(n, "L!alg!") {
 			declareAlgebra()
 			algHeap(n[6:])
@@ -763,4 +787,25 @@ func (e *Engine) callbackResult(st *State, fr *Frame, c *ssa.CallCommon, res Val
 			st.assume(env.evalBool(r.Expr))
 		}
 	}
+}
+
+var structSortPrefix = regexp.MustCompile(`S[0-9]+_`)
+
+// resolveHeapName: contracts name field heaps by type name (F!PK!X); the engine numbers struct sorts (F!S8_PK!X).
+func resolveHeapName(n string) string {
+	if _, ok := heapSortOf[n]; ok {
+		return n
+	}
+	var hit string
+	for k := range heapSortOf {
+		if structSortPrefix.ReplaceAllString(k, "") == n {
+			if hit == "" || k < hit {
+				hit = k
+			}
+		}
+	}
+	if hit != "" {
+		return hit
+	}
+	return n
 }
